@@ -14,7 +14,11 @@ import (
 const c17Rule = "rapid-generated gateway histories: a configuration (deny-pattern list of 1-3 literal/regex patterns; 0-4 forbidden prompt vectors in a cosine or euclidean firewall index; " +
 	"firewall threshold from {0.05..0.9} incl. the default 0.25; cache on/off, cache index pre-created (cosine/euclidean, english analyzer, 0-3 pre-populated entries with sources and ages) or created by the gateway on first save; " +
 	"cache threshold from {0.02..0.9} incl. the default 0.1; TTL none/60 s/1 h, thorough tier also 1 s and 2 s with real sleeps; optional RAG knowledge base so that stored answers cite chunks) and 2-8 steps " +
-	"(chat request | add a forbidden prompt | POST /cache/invalidate | sleep past the TTL). Every request is placed by the generator with the reference model: latest user message identical to / inside by >=5 % / outside by >=5 % " +
+	"(chat request | add a forbidden prompt | POST /cache/invalidate | sleep past the TTL) plus up to 2 RESTARTS (gateway and engine closed, engine reopened on the same data directory, new gateway with the same configuration, " +
+	"same stub embedder and upstream; no snapshot or log rewrite in between) placed right after an invalidation (50 % when it removes something), a late forbidden prompt (35 %), a cache save (18 %), a cache hit, or anywhere, and followed by requests aimed " +
+	"at / near the stored, the invalidated (requests are also placed at and inside the cache distance of answers an invalidation removed) and the forbidden prompts. The reference model does not change across a restart: stored answers with their creation times, " +
+	"forbidden prompts and invalidations all went through the engine and are durable, so every later request is judged exactly as if the process had kept running; right after the reopen the cache index is also read back: no invalidated answer may be in it again, " +
+	"no answer younger than the TTL that nothing invalidated may be missing. A restart is not generated right after a pass-through request whose answer may still be stored in the background, and a history whose background delete of an expired entry was not seen to finish is abandoned at the restart. Every request is placed by the generator with the reference model: latest user message identical to / inside by >=5 % / outside by >=5 % " +
 	"of the firewall and cache thresholds (never in the guard band), with or without a deny-pattern instance (random casing), with or without one of the gateway's pass-through marker phrases, `prompt` or `messages` body, " +
 	"0-2 earlier user/assistant pairs and system/trailing assistant messages carrying decoy deny phrases / markers / forbidden prompts (only the LATEST user message decides), stream absent/false/true. " +
 	"Distance = the index metric's distance as the thresholds are documented (proxy.yaml, pkg/proxy/README.md: smaller = more similar), computed by the harness in float64: cosine index: 1-cos; euclidean index: the index reports " +
